@@ -159,7 +159,20 @@ def monitorOp (mu : Mon) (_prev : Args) (toks : List String) (_implOk : Bool) (o
         (if rejected == "true" &&
             passesExact p.threshold p.totalWeight { v with yes := v.yes + outstanding } then
            [mk "early-reject-unsound" "rejected before expiry, but passes if all outstanding weight votes yes"] else [])
-      (mu, f5 ++ f1 ++ f2 ++ f3 ++ f4)
+      -- (vi) the status computed for a proposal stored Open (`current_status`) is that same decision
+      let stored := (args rest).str "status"
+      let f6 := if stored != "open" || status == "panic" || status == "" then [] else
+        if expired then
+          (if status == "passed" && !passesLax p.threshold p.totalWeight v then
+             [mk "expired-status-passed-below-formula" "status Passed although the documented formula fails"] else []) ++
+          (if status != "passed" && passesExact p.threshold p.totalWeight v then
+             [mk "expired-status-not-passed" s!"status {status} after expiry although the exact formula holds"] else [])
+        else
+          (if status == "passed" && !passesLax p.threshold p.totalWeight { v with no := v.no + outstanding } then
+             [mk "early-status-passed-unsound" "status Passed before expiry, but fails if all outstanding weight votes no"] else []) ++
+          (if status == "rejected" && passesExact p.threshold p.totalWeight { v with yes := v.yes + outstanding } then
+             [mk "early-status-rejected-unsound" "status Rejected before expiry, but passes if all outstanding weight votes yes"] else [])
+      (mu, f5 ++ f1 ++ f2 ++ f3 ++ f4 ++ f6)
   | _ => (mu, [])
 
 def scen : Scen MState Mon where
